@@ -479,6 +479,10 @@ def plan(draw, prof):
             # irrational-ish split points: never equal to a generated event date
             return {"kind": "max_time", "T": [round(t / 4.0 + 0.0137, 4) for t in ts]}
         return {"kind": "max_time", "T": [t / 4.0 for t in ts]}
+    if kind == "max_time_decimal":
+        k = draw(st.integers(*prof.resumptions))
+        ts = sorted(set(draw(st.lists(st.integers(int(lo * 10), int(hi * 10)), min_size=k, max_size=k))))
+        return {"kind": "max_time", "T": [t / 10.0 for t in ts]}
     if kind == "max_customers":
         return {"kind": "max_customers", "n": draw(st.integers(1, 25)),
                 "method": draw(st.sampled_from(["Complete", "Finish", "Arrive", "Accept"]))}
